@@ -40,6 +40,7 @@ RULE = ('Tabular files written by the harness from generated frames (int64, '
 RULE += ' ' + "Also: data file names with more than one dot (default constraints file beside them, and a decoy .tdda under the shorter name); a column named 'c0,c1' beside c0 and c1; sibling files whose types only match after repair (bools as 0/1 integers, digit strings read as numbers); the RowNumber column of detect output compared with the index of the in-memory detection frame."
 RULE += ' ' + 'Round 6: parquet inputs that carry stored row labels (reversed or offset); the detection output file is compared with the in-memory detected records (RowNumber by position, n_failures, *_ok columns); half of the verify/detect runs name the data by a relative path in another directory and the constraints file by its bare name, a decoy constraints file of that name lying beside the data.'
 RULE += ' ' + "Round 7: the per-constraint marks and per-field counts of the printed report are parsed and compared with the library's verdicts; half of the detect runs find an earlier result at the output path, which must not survive."
+RULE += ' ' + 'Round 8: a quarter of the constraint files also name a column the data lacks; a column called c0_x beside c0, and with --interleave and every field listed in file order each flag column must follow its own field.'
 ASSUMPTIONS = ['both sides load the file with tdda\'s load_df, as the '
                'statement specifies: loader defects common to both are '
                'invisible here']
